@@ -55,6 +55,16 @@ TABLE = [
     ("ScriptNOfK", "protocol_types/native_script.rs", "serialization/native_script.rs", 3, 3, [("req", "n"), ("req", "native_scripts")]),
     ("TimelockStart", "protocol_types/native_script.rs", "serialization/native_script.rs", 2, 4, [("req", "slot")]),
     ("TimelockExpiry", "protocol_types/native_script.rs", "serialization/native_script.rs", 2, 5, [("req", "slot")]),
+    ("PoolParams", "protocol_types/certificates/pool_registration.rs", "serialization/certificates/pool_registration.rs", 9, None,
+        [("req", "operator"), ("req", "vrf_keyhash"), ("req", "pledge"), ("req", "cost"), ("req", "margin"), ("req", "reward_account"), ("req", "pool_owners"), ("req", "relays"), ("null", "pool_metadata")]),
+    ("DRepVotingThresholds", "protocol_types/protocol_param_update.rs", "serialization/protocol_param_update.rs", 10, None,
+        [("req", f) for f in "motion_no_confidence committee_normal committee_no_confidence update_constitution hard_fork_initiation pp_network_group pp_economic_group pp_technical_group pp_governance_group treasury_withdrawal".split()]),
+    ("PoolVotingThresholds", "protocol_types/protocol_param_update.rs", "serialization/protocol_param_update.rs", 5, None,
+        [("req", f) for f in "motion_no_confidence committee_normal committee_no_confidence hard_fork_initiation security_relevant_threshold".split()]),
+    ("VRFCert", "protocol_types/crypto/vrf_cert.rs", "serialization/crypto/vrf_cert.rs", 2, None, [("bytes", "output"), ("bytes", "proof")]),
+    ("Update", "lib.rs", "serialization/general.rs", 2, None, [("req", "proposed_protocol_parameter_updates"), ("req", "epoch")]),
+    ("VotingProposal", "protocol_types/governance/proposals/voting_proposal.rs", "serialization/governance/proposals/voting_proposal.rs", 4, None,
+        [("req", "deposit"), ("req", "reward_account"), ("req", "governance_action"), ("req", "anchor")]),
     ("ExUnitPrices", "protocol_types/plutus/ex_unit_prices.rs", "serialization/plutus/ex_unit_prices.rs", 2, None, [("req", "mem_price"), ("req", "step_price")]),
     ("BootstrapWitness", "protocol_types/witnesses/bootstrap_witness.rs", "serialization/witnesses/bootstrap_witness.rs", 4, None, [("req", "vkey"), ("req", "signature"), ("bytes", "chain_code"), ("bytes", "attributes")]),
 ]
@@ -302,7 +312,7 @@ toml.append(open(os.path.join(D, "contracts/ser_records/custom.toml")).read())
 spec.append(open(os.path.join(D, "contracts/ser_records/custom_spec.rs")).read())
 own = set(t[0] for t in TABLE) | set(c[0] for c in COLLS) | set(l[0] for l in LEAVES) | set(d[0] for d in DISPATCH) | set(d[4] for d in DISPATCH if d[4]) | set(re.findall(r'(?m)^name = "(\w+)"', open(os.path.join(D, "contracts/ser_records/custom.toml")).read()))
 opaque -= own
-opaque -= {"Coin", "Epoch", "Port", "BigNum", "TransactionIndex", "GovernanceActionIndex", "Ed25519KeyHash", "ScriptHash", "SubCoin", "PlutusData"}
+opaque -= {"Coin", "Epoch", "Port", "BigNum", "TransactionIndex", "GovernanceActionIndex", "Ed25519KeyHash", "ScriptHash", "SubCoin", "PlutusData", "SlotBigNum"}
 open(os.path.join(D, "contracts/ser_records/unit.toml"), "w").write("\n".join(toml))
 open(os.path.join(D, "contracts/ser_records/spec.rs"), "w").write("".join(spec))
 open(os.path.join(D, "contracts/ser_records/opaque.rs"), "w").write(
